@@ -6,6 +6,8 @@ INVARIANT NamesUnique
 INVARIANT CategorisedDefined
 INVARIANT CategorisedTakeArg
 INVARIANT JrelJabsDisjoint
+INVARIANT CategoriesDisjoint
+INVARIANT LookupsAgree
 INVARIANT FrozenSetsAgree
 INVARIANT JumpOpsAreJumps
 INVARIANT ExtendedArgRight
